@@ -91,7 +91,8 @@ pub fn simd_batch(cx: &mut Ctx, xs: &[u64], tail: &[u8], force: bool) {
     let cj = json!({"cell": cell, "ints": ds(xs), "tail": tail});
     if !cx.gate(&cj) { return; }
     let r = guarded(|| {
-        let c = SimdVarintCodec::new();
+        // a fresh codec, the Default one, a clone of the global one: all the same codec
+        let c = match xs.len() % 3 { 0 => SimdVarintCodec::new(), 1 => SimdVarintCodec::default(), _ => sv::get_global_varint_codec().clone() };
         let e1 = c.encode_batch(xs).ok();
         let e2 = sv::encode_varint_batch(xs).ok();
         let scalar: Vec<u8> = xs.iter().flat_map(|&x| VarInt::encode(x)).collect();
@@ -134,7 +135,9 @@ pub fn simd_batch(cx: &mut Ctx, xs: &[u64], tail: &[u8], force: bool) {
 // DataInput / DataOutput: a script of typed items through every back end
 // ------------------------------------------------------------------------------------------
 #[derive(Clone, Debug, PartialEq)]
-pub enum Item { U8(u8), U16(u16), U32(u32), U64(u64), Var(u64), Bytes(Vec<u8>), Str(String), Raw(Vec<u8>), Skip(Vec<u8>), RawStr(String) }
+pub enum Item { U8(u8), U16(u16), U32(u32), U64(u64), Var(u64), Bytes(Vec<u8>), Str(String), Raw(Vec<u8>), Skip(Vec<u8>), RawStr(String),
+    /// big content named by (what: 0 bytes, 1 string, 2 raw, 3 skip, 4 raw string; n; seed) instead of spelled out
+    Gen(u8, usize, u64) }
 
 impl Item {
     pub fn to_json(&self) -> Value {
@@ -149,6 +152,18 @@ impl Item {
             Item::Raw(b) => json!(["raw", b]),
             Item::Skip(b) => json!(["skip", b]),
             Item::RawStr(s) => json!(["rawstr", s]),
+            Item::Gen(w, n, seed) => json!(["gen", [w, n, seed]]),
+        }
+    }
+    /// The concrete item a generated one stands for.
+    pub fn expand(&self) -> Item {
+        match self {
+            Item::Gen(w, n, seed) => {
+                let b: Vec<u8> = { let k = (*seed as u32).wrapping_mul(40503) | 1; (0..*n).map(|x| ((x as u32).wrapping_mul(2654435761).wrapping_add(k) >> 13) as u8).collect() };
+                let txt = || -> String { b.iter().map(|x| (b'a' + x % 26) as char).collect() };
+                match w { 0 => Item::Bytes(b), 1 => Item::Str(txt()), 2 => Item::Raw(b), 3 => Item::Skip(b), _ => Item::RawStr(txt()) }
+            }
+            other => other.clone(),
         }
     }
     pub fn from_json(v: &Value) -> Option<Item> {
@@ -161,6 +176,7 @@ impl Item {
             "bytes" => Item::Bytes(u8s(a)), "raw" => Item::Raw(u8s(a)), "skip" => Item::Skip(u8s(a)),
             "str" => Item::Str(a.as_str().unwrap_or("").to_string()),
             "rawstr" => Item::RawStr(a.as_str().unwrap_or("").to_string()),
+            "gen" => Item::Gen(a.get(0).and_then(|x| x.as_u64()).unwrap_or(0) as u8, a.get(1).and_then(|x| x.as_u64()).unwrap_or(0) as usize, a.get(2).and_then(|x| x.as_u64()).unwrap_or(0)),
             _ => return None,
         })
     }
@@ -179,6 +195,7 @@ impl Item {
             Item::Str(s) => { leb(s.len() as u64, out); out.extend_from_slice(s.as_bytes()); }
             Item::Raw(b) | Item::Skip(b) => out.extend_from_slice(b),
             Item::RawStr(s) => out.extend_from_slice(s.as_bytes()),
+            Item::Gen(..) => self.expand().reference(out),
         }
     }
 }
@@ -192,6 +209,7 @@ fn write_items<O: DataOutput>(o: &mut O, items: &[Item], base: u64) -> Result<()
             Item::U64(v) => o.write_u64(*v), Item::Var(v) => o.write_var_int(*v),
             Item::Bytes(b) => o.write_length_prefixed_bytes(b), Item::Str(s) => o.write_length_prefixed_string(s),
             Item::Raw(b) | Item::Skip(b) => o.write_bytes(b), Item::RawStr(s) => o.write_string(s),
+            Item::Gen(..) => Ok(()),
         };
         r.map_err(|e| format!("item {} write failed: {}", i, e))?;
         tmp.clear();
@@ -203,11 +221,38 @@ fn write_items<O: DataOutput>(o: &mut O, items: &[Item], base: u64) -> Result<()
     o.flush().map_err(|e| format!("flush failed: {}", e))
 }
 
-fn read_items<I: DataInput>(inp: &mut I, items: &[Item], tail: &[u8]) -> Result<(), String> {
-    let mut want = 0u64;
+/// Like write_items, but raw items go through the back end's std::io::Write implementation (which must count them too).
+fn write_items_w<O: DataOutput + Write>(o: &mut O, items: &[Item], base: u64) -> Result<(), String> {
+    let mut want = base;
     let mut tmp = Vec::new();
     for (i, it) in items.iter().enumerate() {
-        let bad = |got: String| format!("item {} ({:?}) read back as {}", i, it, got);
+        match it {
+            Item::Raw(b) | Item::Skip(b) => Write::write_all(o, b).map_err(|e| format!("item {} io::Write::write_all failed: {}", i, e))?,
+            Item::RawStr(s) => { let k = Write::write(o, s.as_bytes()).map_err(|e| format!("item {} io::Write::write failed: {}", i, e))?; Write::write_all(o, &s.as_bytes()[k..]).map_err(|e| e.to_string())?; }
+            other => write_items(o, std::slice::from_ref(other), want)?,
+        }
+        tmp.clear();
+        it.reference(&mut tmp);
+        want += tmp.len() as u64;
+        if DataOutput::bytes_written(o) != Some(want) || DataOutput::position(o) != Some(want) { return Err(format!("after item {} (through io::Write) bytes_written() = {:?}, want {}", i, DataOutput::bytes_written(o), want)); }
+    }
+    Write::flush(o).map_err(|e| format!("io::Write::flush failed: {}", e))
+}
+
+fn read_items<I: DataInput>(inp: &mut I, items: &[Item], tail: &[u8]) -> Result<(), String> {
+    read_items_only(inp, items, tail.len())?;
+    // nothing beyond the items' own bytes was consumed: the trailing bytes are still all there
+    let g = inp.read_vec(tail.len()).map_err(|e| format!("trailing bytes unreadable: {}", e))?;
+    if g != tail { return Err(format!("trailing bytes read back as {:?}", g)); }
+    Ok(())
+}
+/// Reads the items and stops; `extra` bytes follow them in the input.
+fn read_items_only<I: DataInput>(inp: &mut I, items: &[Item], extra: usize) -> Result<(), String> {
+    let mut want = 0u64;
+    let mut tmp = Vec::new();
+    let total: u64 = extra as u64 + items.iter().map(|it| { let mut t = vec![]; it.reference(&mut t); t.len() as u64 }).sum::<u64>();
+    for (i, it) in items.iter().enumerate() {
+        let bad = |got: String| { let d = format!("{:?}", it); format!("item {} ({}) read back as {}", i, &d[..d.len().min(80)], &got[..got.len().min(200)]) };
         match it {
             Item::U8(v) => { let g = inp.read_u8().map_err(|e| bad(e.to_string()))?; if g != *v { return Err(bad(g.to_string())); } }
             Item::U16(v) => { let g = inp.read_u16().map_err(|e| bad(e.to_string()))?; if g != *v { return Err(bad(g.to_string())); } }
@@ -223,26 +268,26 @@ fn read_items<I: DataInput>(inp: &mut I, items: &[Item], tail: &[u8]) -> Result<
             }
             Item::Skip(b) => { inp.skip(b.len()).map_err(|e| bad(e.to_string()))?; }
             Item::RawStr(s) => { let g = inp.read_string(s.len()).map_err(|e| bad(e.to_string()))?; if &g != s { return Err(bad(format!("{:?}", g))); } }
+            Item::Gen(..) => {}
         }
         tmp.clear();
         it.reference(&mut tmp);
         want += tmp.len() as u64;
         if let Some(p) = inp.position() { if p != want { return Err(format!("after item {} input position() = {}, want {}", i, p, want)); } }
+        if let Some(h) = inp.has_remaining() { if h != (want < total) { return Err(format!("after item {} has_remaining() = {} at {} of {} bytes", i, h, want, total)); } }
     }
-    // nothing beyond the items' own bytes was consumed: the trailing bytes are still all there
-    let g = inp.read_vec(tail.len()).map_err(|e| format!("trailing bytes unreadable: {}", e))?;
-    if g != tail { return Err(format!("trailing bytes read back as {:?}", g)); }
     Ok(())
 }
 
-pub const N_OUT: usize = 11;
-pub const N_IN: usize = 13;
+pub const N_OUT: usize = 16;
+pub const N_IN: usize = 16;
 pub fn out_name(k: usize) -> &'static str {
-    ["vec", "vec_cap", "writer_vec", "writer_cursor", "file", "file_append", "mmap_out", "writer_sbw", "writer_zcw", "writer_chunky", "to_fns"][k % N_OUT]
+    ["vec", "vec_cap", "writer_vec", "writer_cursor", "file", "file_append", "mmap_out", "writer_sbw", "writer_zcw", "writer_chunky", "to_fns",
+     "writer_as_io_write", "file_as_io_write", "writer_sbw_default", "writer_zcw_default", "mmap_out_open"][k % N_OUT]
 }
 pub fn in_name(k: usize) -> &'static str {
     ["slice", "reader_cursor", "reader_slice", "reader_file", "mmap_data_input", "mmapped_input", "range_reader", "reader_sbr", "reader_zcr",
-     "reader_chunky", "range_over_sbr", "from_fns", "sbr_over_range"][k % N_IN]
+     "reader_chunky", "range_over_sbr", "from_fns", "sbr_over_range", "reader_sbr_preset", "reader_zcr_default", "mmap_slices"][k % N_IN]
 }
 
 /// Serialise the items with output back end `k`; returns the bytes that reached the destination.
@@ -250,7 +295,25 @@ fn produce(cx: &Ctx, k: usize, items: &[Item], p: u64) -> Result<Vec<u8>, String
     let path = format!("{}/io_out_{}.bin", cx.tmp, k);
     let e = |x: zipora::ZiporaError| x.to_string();
     match k % N_OUT {
-        0 => { let mut o = VecDataOutput::new(); write_items(&mut o, items, 0)?; if o.len() as u64 != o.bytes_written().unwrap_or(0) { return Err("len() != bytes_written()".into()); } Ok(o.into_vec()) }
+        0 => {
+            // an output that was used and cleared before is an empty output again (clear / is_empty / reserve leave no trace)
+            let mut o = match p % 3 { 0 => VecDataOutput::new(), 1 => VecDataOutput::default(), _ => zipora::io::to_vec() };
+            if p % 2 == 1 {
+                if !o.is_empty() { return Err("a new output is not empty".into()); }
+                write_items(&mut o, &items[..items.len().min(3)], 0)?;
+                o.write_u32(0xDEAD_BEEF).map_err(e)?;
+                o.clear();
+                if !o.is_empty() || o.len() != 0 || o.bytes_written() != Some(0) { return Err(format!("after clear(): len {} bytes_written {:?}", o.len(), o.bytes_written())); }
+                o.reserve((p % 5000) as usize);
+            }
+            let half = items.len() / 2;
+            write_items(&mut o, &items[..half], 0)?;
+            let at = o.len() as u64;
+            o.reserve((p % 70_000) as usize);
+            write_items(&mut o, &items[half..], at)?;
+            if o.len() as u64 != o.bytes_written().unwrap_or(0) || o.is_empty() != (o.len() == 0) { return Err("len() != bytes_written()".into()); }
+            Ok(o.into_vec())
+        }
         1 => { let mut o = VecDataOutput::with_capacity((p % 40) as usize); write_items(&mut o, items, 0)?; Ok(o.as_slice().to_vec()) }
         2 => { let mut o = WriterDataOutput::new(Vec::new()); write_items(&mut o, items, 0)?; Ok(o.into_inner()) }
         3 => { let mut o = WriterDataOutput::new(Cursor::new(Vec::new())); write_items(&mut o, items, 0)?; Ok(o.into_inner().into_inner()) }
@@ -297,6 +360,46 @@ fn produce(cx: &Ctx, k: usize, items: &[Item], p: u64) -> Result<Vec<u8>, String
             o.into_inner().into_inner().map_err(|x| x.to_string())
         }
         9 => { let mut o = WriterDataOutput::new(ChunkyW { inner: vec![], k: 1 + (p % 3) as usize }); write_items(&mut o, items, 0)?; Ok(o.into_inner().inner) }
+        11 => { let mut o = WriterDataOutput::new(ChunkyW { inner: vec![], k: [1usize, 7, usize::MAX][(p % 3) as usize] }); write_items_w(&mut o, items, 0)?; let n = o.bytes_written(); let v = o.into_inner().inner; if v.len() as u64 != n { return Err(format!("bytes_written() = {}, {} bytes reached the writer", n, v.len())); } Ok(v) }
+        12 => {
+            let mut o = FileDataOutput::create(&path).map_err(e)?;
+            write_items_w(&mut o, items, 0)?;
+            o.sync_data().map_err(e)?;
+            let n = o.bytes_written();
+            drop(o);
+            let f = std::fs::read(&path).map_err(|x| x.to_string())?;
+            if f.len() as u64 != n { return Err(format!("bytes_written() = {}, the file has {} bytes", n, f.len())); }
+            Ok(f)
+        }
+        13 => {
+            // the default configuration: 64 KiB buffer, writes of 8 KiB and more bypass it
+            let w = StreamBufferedWriter::new(ChunkyW { inner: vec![], k: [usize::MAX, 5000][(p % 2) as usize] }).map_err(e)?;
+            let mut o = WriterDataOutput::new(w);
+            write_items(&mut o, items, 0)?;
+            Ok(o.into_inner().into_inner().map_err(|x| x.to_string())?.inner)
+        }
+        14 => {
+            let w = ZeroCopyWriter::new(ChunkyW { inner: vec![], k: [usize::MAX, 5000][(p % 2) as usize] }).map_err(e)?;
+            let mut o = WriterDataOutput::new(w);
+            write_items(&mut o, items, 0)?;
+            Ok(o.into_inner().into_inner().map_err(|x| x.to_string())?.inner)
+        }
+        15 => {
+            // an existing file opened for mapped writing: overwritten from the start, then cut at the end of what was written
+            let old: Vec<u8> = (0..[0usize, 1, 50, 5000][(p % 4) as usize]).map(|x| (x as u8) ^ 0x77).collect();
+            std::fs::write(&path, &old).map_err(|x| x.to_string())?;
+            let mut o = MemoryMappedOutput::open(&path).map_err(e)?;
+            if o.capacity() != old.len() || o.position() != 0 || o.remaining() != old.len() { return Err("open(): capacity / position / remaining".into()); }
+            write_items(&mut o, items, 0)?;
+            let end = o.position();
+            // a seek back and forth leaves the content alone
+            o.seek(0).map_err(e)?;
+            o.seek(end).map_err(e)?;
+            o.truncate().map_err(e)?;
+            o.flush().map_err(e)?;
+            drop(o);
+            std::fs::read(&path).map_err(|x| x.to_string())
+        }
         _ => {
             let mut o = zipora::io::to_vec_with_capacity(3);
             write_items(&mut o, items, 0)?;
@@ -328,8 +431,12 @@ fn consume(cx: &Ctx, k: usize, bytes: &[u8], items: &[Item], tail: &[u8], p: u64
     match k % N_IN {
         0 => {
             let mut i = SliceDataInput::new(&all);
+            // stop before the trailing bytes: they are what remaining_slice() shows
+            read_items_only(&mut i, items, tail.len())?;
+            if i.remaining_slice() != tail || i.remaining() != tail.len() || i.has_more() != !tail.is_empty() { return Err(format!("after the items remaining_slice() has {} bytes, the trailing bytes are {}", i.remaining_slice().len(), tail.len())); }
+            let mut i = SliceDataInput::new(&all);
             read_items(&mut i, items, tail)?;
-            if i.pos() != all.len() || i.remaining() != 0 || i.has_more() { return Err(format!("slice input ends at pos {} of {}", i.pos(), all.len())); }
+            if i.pos() != all.len() || i.remaining() != 0 || i.has_more() || !i.remaining_slice().is_empty() { return Err(format!("slice input ends at pos {} of {}", i.pos(), all.len())); }
             Ok(())
         }
         1 => { let mut i = ReaderDataInput::new(Cursor::new(all.clone())); read_items(&mut i, items, tail)?; if i.pos() != all.len() as u64 { return Err("reader pos".into()); } Ok(()) }
@@ -349,7 +456,15 @@ fn consume(cx: &Ctx, k: usize, bytes: &[u8], items: &[Item], tail: &[u8], p: u64
             let mut t2 = tail.to_vec();
             if p % 3 == 0 { let pad: Vec<u8> = (0..4200u32).map(|x| (x * 7) as u8).collect(); padded.extend_from_slice(&pad); t2.extend_from_slice(&pad); }
             std::fs::write(&path, &padded).map_err(io)?;
-            let mut i = if p % 2 == 0 { MemoryMappedInput::from_path(&path).map_err(e)? } else { MemoryMappedInput::new(std::fs::File::open(&path).map_err(io)?).map_err(e)? };
+            use zipora::io::AccessPattern;
+            let pat = [AccessPattern::Unknown, AccessPattern::Sequential, AccessPattern::Random, AccessPattern::Mixed][(p / 4 % 4) as usize];
+            let mut i = match p % 4 {
+                0 => MemoryMappedInput::from_path(&path),
+                1 => MemoryMappedInput::new(std::fs::File::open(&path).map_err(io)?),
+                2 => MemoryMappedInput::from_path_with_pattern(&path, pat),
+                _ => MemoryMappedInput::new_with_pattern(std::fs::File::open(&path).map_err(io)?, pat),
+            }.map_err(e)?;
+            if i.len() != padded.len() || i.is_empty() != padded.is_empty() { return Err("mapped input len()".into()); }
             read_items(&mut i, items, &t2)?;
             if i.position() != padded.len() || i.remaining() != 0 { return Err(format!("mapped input ends at {} of {}", i.position(), padded.len())); }
             Ok(())
@@ -360,7 +475,12 @@ fn consume(cx: &Ctx, k: usize, bytes: &[u8], items: &[Item], tail: &[u8], p: u64
             let mut big = pre.clone();
             big.extend_from_slice(&all);
             big.extend_from_slice(&[0xEE; 3]);
-            let mut i = RangeReader::new_and_seek(Cursor::new(big), pre.len() as u64, all.len() as u64).map_err(e)?;
+            let (st, ln) = (pre.len() as u64, all.len() as u64);
+            let mut i = match p / 5 % 3 {
+                0 => RangeReader::new_and_seek(Cursor::new(big), st, ln).map_err(e)?,
+                1 => { let mut c = Cursor::new(big); c.set_position(st); RangeReader::with_range(c, st, st + ln) }
+                _ => zipora::io::range::reader(Cursor::new(big), st, ln).map_err(e)?,
+            };
             read_items(&mut i, items, tail)?;
             if i.remaining() != 0 || !i.is_at_end() { return Err(format!("range reader has {} bytes left", i.remaining())); }
             if i.read_u8().is_ok() { return Err("range reader read past the end of its range".into()); }
@@ -396,6 +516,32 @@ fn consume(cx: &Ctx, k: usize, bytes: &[u8], items: &[Item], tail: &[u8], p: u64
             let mut i3 = zipora::io::from_file(&path).map_err(e)?;
             read_items(&mut i3, items, tail)
         }
+        13 => {
+            // the preset constructors (buffers of 8 .. 128 KiB, read-ahead on or off, bulk thresholds 2 .. 16 KiB)
+            let inner = Chunky { inner: Cursor::new(all.clone()), k: [usize::MAX, 5000, 1][(p / 5 % 3) as usize] };
+            let r = match p % 5 {
+                0 => StreamBufferedReader::new(inner),
+                1 => StreamBufferedReader::performance_optimized(inner),
+                2 => StreamBufferedReader::memory_efficient(inner),
+                3 => StreamBufferedReader::low_latency(inner),
+                _ => StreamBufferedReader::with_config(inner, StreamBufferConfig { page_alignment: [1usize, 64, 4096][(p / 15 % 3) as usize], ..StreamBufferConfig::default() }),
+            }.map_err(e)?;
+            let mut i = ReaderDataInput::new(r);
+            read_items(&mut i, items, tail)
+        }
+        14 => { let r = ZeroCopyReader::new(Chunky { inner: Cursor::new(all.clone()), k: [usize::MAX, 5000, 1][(p % 3) as usize] }).map_err(e)?; let mut i = ReaderDataInput::new(r); read_items(&mut i, items, tail) }
+        15 => {
+            if all.is_empty() { return Ok(()); }
+            std::fs::write(&path, &all).map_err(io)?;
+            // (MmapDataInput::from_mmap takes a memmap2::Mmap, a crate the harness does not link: open() builds the same object)
+            let mut i = MmapDataInput::open(&path).map_err(e)?;
+            if i.len() != all.len() || i.is_empty() || i.as_slice() != &all[..] { return Err("mapped input: len / as_slice".into()); }
+            read_items_only(&mut i, items, tail.len())?;
+            if i.remaining_slice() != tail || i.remaining() != tail.len() { return Err(format!("after the items remaining_slice() has {} bytes, the trailing bytes are {}", i.remaining_slice().len(), tail.len())); }
+            let g = i.read_vec(tail.len()).map_err(e)?;
+            if g != tail || i.remaining() != 0 || i.has_remaining() != Some(false) || !i.remaining_slice().is_empty() { return Err("mapped input: trailing bytes".into()); }
+            Ok(())
+        }
         _ => {
             let cap = 1 + (p % 6) as usize;
             let pre = (p % 3) as usize;
@@ -419,6 +565,8 @@ pub fn data_io(cx: &mut Ctx, items: &[Item], ok: usize, ik: usize, tail: &[u8], 
     cx.sum.eval(&cell, &cj.to_string(), items.len() >= 2);
     cx.sum.dist(&format!("data_out={}", out_name(ok)));
     cx.sum.dist(&format!("data_in={}", in_name(ik)));
+    let expanded: Vec<Item> = items.iter().map(|i| i.expand()).collect();
+    let items = &expanded[..];
     let mut reference = Vec::new();
     for it in items { it.reference(&mut reference); }
     let r = guarded(|| -> Result<Vec<u8>, String> {
@@ -426,7 +574,7 @@ pub fn data_io(cx: &mut Ctx, items: &[Item], ok: usize, ik: usize, tail: &[u8], 
         // every output back end must emit the same stream as the plain Vec back end (and the documented format)
         let mut o = VecDataOutput::new();
         write_items(&mut o, items, 0)?;
-        if bytes != o.as_slice() { return Err(format!("output back end produced {:?}, the Vec back end {:?}", bytes, o.as_slice())); }
+        if bytes != o.as_slice() { let i = bytes.iter().zip(o.as_slice()).position(|(a, b)| a != b).unwrap_or(bytes.len().min(o.len())); return Err(format!("output back end produced {} bytes, the Vec back end {}; first difference at byte {}: {:?} vs {:?}", bytes.len(), o.len(), i, &bytes[i.min(bytes.len())..(i + 8).min(bytes.len())], &o.as_slice()[i.min(o.len())..(i + 8).min(o.len())])); }
         consume(cx, ik, &bytes, items, tail, p)?;
         Ok(bytes)
     });
@@ -478,7 +626,12 @@ where T: EndianConvert + std::fmt::Debug {
     let w = le.len();
     let little_host = cfg!(target_endian = "little");
     for (e, want) in [(Endianness::Little, &le), (Endianness::Big, &be), (Endianness::Native, if little_host { &le } else { &be })] {
-        let io = EndianIO::<T>::new(e);
+        // the preset constructors build the same converter as new(e)
+        let io = if tail.len() % 2 == 1 { EndianIO::<T>::new(e) } else { match e { Endianness::Little => EndianIO::<T>::little_endian(), Endianness::Big => EndianIO::<T>::big_endian(), Endianness::Native => EndianIO::<T>::native_endian() } };
+        let native = e == Endianness::Native || (e == Endianness::Little) == little_host;
+        if io.endianness() != e || io.needs_conversion() == native || e.is_native() != native || e.needs_conversion() == native || T::needs_swap_for(e) != (w > 1 && !native) {
+            return Err(format!("{:?}: endianness() {:?}, needs_conversion() {}, is_native() {}, needs_swap_for {} on a {}-endian host", e, io.endianness(), io.needs_conversion(), e.is_native(), T::needs_swap_for(e), if little_host { "little" } else { "big" }));
+        }
         let mut buf = vec![0x5Au8; w + tail.len()];
         buf[w..].copy_from_slice(tail);
         io.write_to_bytes(v, &mut buf).map_err(|x| x.to_string())?;
@@ -565,6 +718,11 @@ pub fn endian_bulk(cx: &mut Ctx, xs: &[u64], from_little: bool) {
 
 pub fn endian_magic(cx: &mut Ctx) {
     let cell = "endian/magic";
+    // the configuration builder carries no behaviour of its own (its fields are private and nothing reads them): building every preset must simply work
+    if guarded(|| { use zipora::io::EndianConfig; let _ = (EndianConfig::new(), EndianConfig::default(), EndianConfig::performance_optimized(), EndianConfig::cross_platform(),
+        EndianConfig::new().with_default_endianness(Endianness::Big).with_auto_detect(true).with_simd_acceleration(false)); }).is_err() {
+        cx.sum.fail(cell, None, json!({"cell": cell, "which": 9}), "an EndianConfig constructor panicked");
+    }
     for (i, e) in [Endianness::Little, Endianness::Big, Endianness::Native].into_iter().enumerate() {
         let cj = json!({"cell": cell, "which": i});
         if !cx.gate(&cj) { return; }
